@@ -1,5 +1,346 @@
-//! C04 - monitor not written yet.
+//! C04 - brace alternation matches exactly the union of its csh-style
+//! expansions; compiles exactly when braces are properly nested.
 
-use crate::fw::Cx;
+use crate::fw::{CaseResult, Cx, Ev, Tier};
+use crate::oracle::pattern as opat;
+use crate::rng::{hash_strs, Rng};
+use pkgsrc::Pattern;
 
-pub fn run(_cx: &mut Cx) {}
+const LITS: [&str; 10] = ["a", "b", "c", "d", "ab", "-", "1", "x", "", ""];
+
+/// (tail text in the pattern, concrete suffixes for names: matching first)
+const TAILS: [(&str, &[&str]); 9] = [
+    ("", &["", "x"]),
+    ("-1.0", &["-1.0", "-1.1"]),
+    ("-[0-9]*", &["-2.0", "-x"]),
+    (">=1", &["-1.5", "-0.5"]),
+    (">1<3", &["-2", "-3"]),
+    ("-1.0{,nb[0-9]*}", &["-1.0", "-1.0nb2", "-1.0nb"]),
+    ("-[0-9", &["-1", "-[0-9"]),
+    (">1>2", &["-3", "-1.5"]),
+    ("?", &["z", ""]),
+];
+
+fn gen_seq(r: &mut Rng, depth: usize, out: &mut String, groups: &mut usize, maxdepth: &mut usize, cur: usize) {
+    let items = r.range(1, 3);
+    for _ in 0..items {
+        if depth > 0 && r.chance(1, 2) {
+            // a group
+            *groups += 1;
+            *maxdepth = (*maxdepth).max(cur + 1);
+            out.push('{');
+            let alts = match r.below(10) {
+                0 => 1,
+                1..=5 => 2,
+                6..=8 => 3,
+                _ => 4,
+            };
+            for a in 0..alts {
+                if a > 0 {
+                    out.push(',');
+                }
+                if r.chance(1, 6) {
+                    // empty alternative
+                } else {
+                    gen_seq(r, depth - 1, out, groups, maxdepth, cur + 1);
+                }
+            }
+            out.push('}');
+        } else {
+            out.push_str(LITS[r.below(LITS.len())]);
+        }
+    }
+}
+
+struct Gen {
+    prefix: String,
+    tail: usize,
+    groups: usize,
+    depth: usize,
+}
+
+fn gen_pattern(r: &mut Rng, cap: usize) -> Gen {
+    loop {
+        let mut s = String::new();
+        let (mut g, mut d) = (0, 0);
+        gen_seq(r, 3, &mut s, &mut g, &mut d, 0);
+        if g == 0 || s.contains("{}") {
+            continue;
+        }
+        let tail = r.below(TAILS.len());
+        let full = format!("{s}{}", TAILS[tail].0);
+        if opat::count_expansions(&full, cap) > cap {
+            continue;
+        }
+        return Gen { prefix: s, tail, groups: g, depth: d };
+    }
+}
+
+/// Strings the pre-fix defect (pairing a '{' with the first following '}')
+/// would have tried; used as candidate negatives.
+fn mispairings(p: &str) -> Vec<String> {
+    let b: Vec<char> = p.chars().collect();
+    let mut out = vec![];
+    for i in 0..b.len() {
+        if b[i] != '{' {
+            continue;
+        }
+        let Some(j) = (i + 1..b.len()).find(|&j| b[j] == '}') else { continue };
+        let inner: String = b[i + 1..j].iter().collect();
+        let first: String = b[..i].iter().collect();
+        let last: String = b[j + 1..].iter().collect();
+        for piece in inner.split(',') {
+            let cand = format!("{first}{piece}{last}");
+            if opat::braces_nested(&cand) && !cand.contains("{}") && opat::count_expansions(&cand, 256) <= 256 {
+                out.extend(opat::expand(&cand));
+            } else {
+                out.push(cand.chars().filter(|c| !matches!(c, '{' | '}' | ',')).collect());
+            }
+        }
+    }
+    out
+}
+
+fn mutate(r: &mut Rng, s: &str) -> String {
+    let mut c: Vec<char> = s.chars().collect();
+    match r.below(4) {
+        0 if !c.is_empty() => {
+            let i = r.below(c.len());
+            c.remove(i);
+        }
+        1 if !c.is_empty() => {
+            let i = r.below(c.len());
+            c[i] = *r.pick(&['a', 'b', 'c', 'd', 'x', '-', '1']);
+        }
+        2 => {
+            let i = r.below(c.len() + 1);
+            c.insert(i, *r.pick(&['a', 'b', 'c', 'd', 'x', '-', '1']));
+        }
+        _ => c.push(*r.pick(&['a', 'x', '1', '-'])),
+    }
+    c.into_iter().collect()
+}
+
+/// The oracle: does any expansion, taken as a pattern in its own right,
+/// match the name?
+struct Expanded {
+    pats: Vec<(String, Option<Pattern>)>,
+}
+
+fn expanded(p: &str) -> Expanded {
+    let pats = opat::expand(p)
+        .into_iter()
+        .map(|e| {
+            let c = Pattern::new(&e).ok();
+            (e, c)
+        })
+        .collect();
+    Expanded { pats }
+}
+
+fn check_case(ev: &mut Ev, p: &str, names: &[String], groups: usize, depth: usize) -> CaseResult {
+    let nested = opat::braces_nested(p);
+    let got = Pattern::new(p);
+    ev.eval();
+    ev.count(if nested { "compile/nested" } else { "compile/not-nested" });
+    match (&got, nested) {
+        (Ok(_), false) => return Err(format!("Pattern::new({p:?}) accepted improperly nested braces").into()),
+        (Err(e), true) => return Err(format!("Pattern::new({p:?}) rejected properly nested braces: {e}").into()),
+        _ => {}
+    }
+    let Ok(pat) = got else { return Ok(()) };
+    let ex = expanded(p);
+    ev.max("max/expansions", ex.pats.len() as u64);
+    ev.count(&format!("groups/{}", groups.min(6)));
+    ev.count(&format!("depth/{}", depth.min(4)));
+    let mut pos = 0;
+    for name in names {
+        let want = ex.pats.iter().find(|(_, c)| c.as_ref().map(|c| c.matches(name)).unwrap_or(false));
+        let got = pat.matches(name);
+        ev.eval();
+        if got != want.is_some() {
+            return Err(match want {
+                Some((e, _)) => format!("{p:?} does not match {name:?} although its expansion {e:?} does"),
+                None => format!(
+                    "{p:?} matches {name:?} but none of its {} expansions does (e.g. {:?})",
+                    ex.pats.len(),
+                    ex.pats.iter().take(6).map(|x| &x.0).collect::<Vec<_>>()
+                ),
+            }
+            .into());
+        }
+        if got {
+            pos += 1;
+            ev.count("verdict/match");
+        } else {
+            ev.count("verdict/no-match");
+        }
+    }
+    let _ = pos;
+    if groups >= 2 || depth >= 2 {
+        let mut parts: Vec<&[u8]> = vec![p.as_bytes()];
+        for n in names {
+            parts.push(n.as_bytes());
+        }
+        ev.nontrivial(hash_strs(&parts));
+    }
+    Ok(())
+}
+
+fn brace_stats(p: &str) -> (usize, usize) {
+    let (mut g, mut d, mut cur) = (0usize, 0usize, 0usize);
+    for c in p.chars() {
+        if c == '{' {
+            g += 1;
+            cur += 1;
+            d = d.max(cur);
+        } else if c == '}' {
+            cur = cur.saturating_sub(1);
+        }
+    }
+    (g, d)
+}
+
+pub fn run(cx: &mut Cx) {
+    cx.default_budget();
+    for k in ["compile/nested", "compile/not-nested", "verdict/match", "verdict/no-match", "names/mispairing-not-in-expansion", "depth/2", "depth/3", "groups/3"] {
+        cx.ev.require(k);
+    }
+    let cap = cx.pick_tier(16usize, 64, 64, 4096);
+    let n = cx.per_shard(40, 2_000, 40_000, 400_000);
+    let mut r = cx.stream("trees");
+    for _ in 0..n {
+        let g = gen_pattern(&mut r, cap);
+        let (tail, sufs) = TAILS[g.tail];
+        let mut p = format!("{}{}", g.prefix, tail);
+        let unbalance = r.chance(1, 10);
+        if unbalance {
+            // delete one character, preferably a brace
+            let idx: Vec<usize> = p.char_indices().filter(|(_, c)| matches!(c, '{' | '}')).map(|(i, _)| i).collect();
+            let i = if r.chance(3, 4) { *r.pick(&idx) } else { p.char_indices().nth(r.below(p.chars().count())).unwrap().0 };
+            p.remove(i);
+            if !p.contains('{') && !p.contains('}') {
+                continue;
+            }
+            if p.contains("{}") {
+                continue;
+            }
+        }
+        // candidate names
+        let mut names: Vec<String> = vec![];
+        let mut mis_outside = 0u64;
+        if opat::braces_nested(&g.prefix) {
+            let exps = opat::expand(&g.prefix);
+            let truth: std::collections::HashSet<&String> = exps.iter().collect();
+            let take = cx_take(&mut r, exps.len(), 10);
+            for &i in &take {
+                for suf in sufs.iter() {
+                    names.push(format!("{}{}", exps[i], suf));
+                }
+                names.push(mutate(&mut r, &format!("{}{}", exps[i], sufs[0])));
+            }
+            for m in mispairings(&g.prefix).into_iter().take(12) {
+                if !truth.contains(&m) {
+                    mis_outside += 1;
+                }
+                names.push(format!("{m}{}", sufs[0]));
+            }
+            let stripped: String = g.prefix.chars().filter(|c| !matches!(c, '{' | '}' | ',')).collect();
+            names.push(format!("{stripped}{}", sufs[0]));
+        }
+        names.push(String::new());
+        names.sort();
+        names.dedup();
+        let (groups, depth) = brace_stats(&p);
+        cx.check(
+            || format!("pattern {p:?} names {names:?}"),
+            |ev| {
+                ev.add("names/mispairing-not-in-expansion", mis_outside);
+                ev.count("workload/trees");
+                check_case(ev, &p, &names, groups, depth)
+            },
+        );
+    }
+
+    // Exhaustive sweep over short strings of the brace alphabet.
+    if cx.tier != Tier::Mini {
+        let maxlen = cx.pick_tier(3usize, 5, 6, 8);
+        let alpha = ['{', '}', ',', 'a', 'b'];
+        let name_alpha = ['a', 'b', ','];
+        let mut names: Vec<String> = vec![String::new()];
+        let mut layer = vec![String::new()];
+        for _ in 0..4 {
+            let mut next = vec![];
+            for s in &layer {
+                for c in name_alpha {
+                    next.push(format!("{s}{c}"));
+                }
+            }
+            names.extend(next.iter().cloned());
+            layer = next;
+        }
+        let mut total = 0u64;
+        let mut idx = 0u64;
+        let mut stack: Vec<String> = vec![String::new()];
+        while let Some(s) = stack.pop() {
+            if s.chars().count() < maxlen {
+                for c in alpha {
+                    stack.push(format!("{s}{c}"));
+                }
+            }
+            if !(s.contains('{') || s.contains('}')) || s.contains("{}") {
+                continue;
+            }
+            idx += 1;
+            if !cx.mine(idx) {
+                continue;
+            }
+            total += 1;
+            let (groups, depth) = brace_stats(&s);
+            cx.check(
+                || format!("exhaustive pattern {s:?} x {} names over {{a,b,','}} of length <= 4", names.len()),
+                |ev| {
+                    ev.count("workload/exhaustive");
+                    check_case(ev, &s, &names, groups, depth)
+                },
+            );
+        }
+        cx.ev.add("exhaustive/patterns", total);
+    }
+
+    // Real-world alternation patterns from pkgsrc.
+    if cx.tier != Tier::Mini && cx.shard == 0 {
+        let pats: Vec<String> = crate::corpus::patterns().into_iter().filter(|p| p.contains('{')).collect();
+        let names = crate::corpus::names();
+        for p in &pats {
+            if p.contains("{}") || !opat::braces_nested(p) || opat::count_expansions(p, 256) > 256 {
+                continue;
+            }
+            // names sharing the first three characters with the pattern
+            let key: String = p.chars().take_while(|c| c.is_ascii_alphanumeric() || *c == '-').take(4).collect();
+            let mut cand: Vec<String> = names.iter().filter(|n| n.starts_with(&key)).take(40).cloned().collect();
+            for e in opat::expand(p).iter().take(8) {
+                cand.push(e.replace("[0-9]*", "1").replace('*', "7"));
+            }
+            let (groups, depth) = brace_stats(p);
+            cx.check(
+                || format!("corpus pattern {p:?} x {} names", cand.len()),
+                |ev| {
+                    ev.count("workload/corpus");
+                    check_case(ev, p, &cand, groups, depth)
+                },
+            );
+        }
+    }
+}
+
+/// Up to `k` distinct indices below `n` (all of them when n <= k).
+fn cx_take(r: &mut Rng, n: usize, k: usize) -> Vec<usize> {
+    if n <= k {
+        return (0..n).collect();
+    }
+    let mut v: Vec<usize> = (0..k).map(|_| r.below(n)).collect();
+    v.sort();
+    v.dedup();
+    v
+}
